@@ -1,0 +1,14 @@
+//go:build verif
+
+package challenger
+
+import "github.com/consensys/gnark/frontend"
+
+// verifEvent reports a linearization-point event to the frontend.API in use, if (and only if) that
+// API implements VerifEvent. Only the verification harness's proxy API does; gnark's own builders
+// and engines do not, so the call is a no-op for them.
+func verifEvent(api frontend.API, kind string, args ...any) {
+	if t, ok := api.(interface{ VerifEvent(string, ...any) }); ok {
+		t.VerifEvent(kind, args...)
+	}
+}
